@@ -149,6 +149,16 @@ def c12(chk, P):
     chk.floor('R12.4', 4)
 
 
+def c08(chk, P):
+    chk.rule('R08.10', 'a page seek that reports success has selected a stream: from every consistent entry state of the handle -- '
+             'including OPENED, where a raw seek to the end of the file or a failed seek leaves it -- every literal success return '
+             'of ov_pcm_seek_page is reached with ready_state >= STREAMSET (K5 typestate), so the sample-accurate seek built on '
+             'it can make the decoder ready instead of failing with OV_EFAULT on an intact stream')
+    K, api, uses, ready = scan(P)
+    _own_success_returns(chk, P, K, 'ov_pcm_seek_page', 'R08.10')
+    chk.floor('R08.10', 1)
+
+
 def _own_success_returns(chk, P, K, fn, rule):
     F = P.need(fn)
     bad, n = {}, 0
